@@ -501,4 +501,137 @@ theorem retry_prefix (hl : H.Lawful) (h32 : H.sha256.outLen = 32) (L : SealLaws 
 
 end Prefix3
 
+/-! ### from the senders' terms to the tool's, for the whole interleaved part -/
+section RfcLayer
+open TLX.Export TLX.Quic.Session TLX.Cipher TLX.Props.C02Session TLX.Spec.KeySchedules TLX.Props.C02Capstone4
+open TLX.Props.C02Rfc TLX.Spec.RfcQuic
+variable {maskFn : Quic.Dissect.MaskFn} {H : Crypto.Prims} {Pc : Cipher.Prims}
+
+/-- `RoutesY` relative to the senders' connection IDs -/
+def RoutesYR (w : DgX → Bytes) : RTrk → List DgY → Prop
+  | _, [] => True
+  | r, d :: ds => (d.x.base.longs = [] ∧ d.x.zr = [] → RouteOk (if d.x.base.srv then r.cc else r.sc) (w d.x) d.x.dcid) ∧
+      RoutesYR w (r.dgx d.eff) ds
+
+theorem routes_of_rfc (h : ConfHs) (hok : h.Ok) (L : SealLaws Pc) (dcid0 : Bytes) (sel selR : SuiteSel) (sh ch sa ca e : Bytes)
+    (hsel : selectSuite h.sh.cipherSuite = some sel) (w : DgX → Bytes) (ds : List DgY) (a rest : List CryptoIn)
+    (hins : h.ins = a ++ allInsM (ds.map (·.x.base)) ++ rest) (t : Trk) (r : RTrk) (hs : Sync a t r)
+    (ecs : Option SuiteSel) (hecs : ecs = ecsFold {} a none)
+    (hd : YDgsR maskFn H Pc L dcid0 sel selR sh ch sa ca e h a r ds) (hro : RoutesYR w r ds) : RoutesY w t ds := by
+  induction ds generalizing a t r ecs with
+  | nil => trivial
+  | cons d ds ih =>
+    obtain ⟨hd1, hd2⟩ := hd
+    obtain ⟨r1, r2⟩ := hro
+    have hins' : h.ins = a ++ insOf d.x.base.longs ++ (allInsM (ds.map (·.x.base)) ++ rest) := by
+      rw [hins]; simp [allInsM, List.flatMap_cons, List.append_assoc]
+    obtain ⟨_, y2, y3⟩ := ydg_of_rfc h hok L dcid0 sel selR sh ch sa ca e hsel d a _ hins' t r hs ecs hecs hd1
+    exact ⟨by rw [hs.cc, hs.sc]; exact r1,
+      ih (a ++ insOf d.x.base.longs) (by rw [hins']; simp [List.append_assoc]) (t.dgx d.eff) (r.dgx d.eff) y2 _ y3 hd2 r2⟩
+
+def _root_.TLX.Props.C02Rfc.RTrk.afterRetry (r : RTrk) : RTrk := ⟨false, r.tc, r.ts, r.cc, r.sc⟩
+
+theorem sync_afterRetry (a : List CryptoIn) (t : Trk) (r : RTrk) (h : Sync a t r) : Sync [] t.afterRetry r.afterRetry :=
+  ⟨rfl, rfl, rfl, h.tc, h.ts, h.cc, h.sc⟩
+
+/-- the whole interleaved part: every tool-side hypothesis from the senders' -/
+theorem mix_of_rfc (h : ConfHs) (hok : h.Ok) (L : SealLaws Pc) (dcid0 : Bytes) (sel selR : SuiteSel) (sh ch sa ca e : Bytes)
+    (hsel : selectSuite h.sh.cipherSuite = some sel) (w : DgX → Bytes) (d0 : DgY) (ds : List DgY)
+    (hins : allInsM ((d0 :: ds).map (·.x.base)) = h.ins) (t : Trk) (r : RTrk) (hs : Sync [] t r)
+    (hd : YDgsR maskFn H Pc L dcid0 sel selR sh ch sa ca e h [] r (d0 :: ds)) (hro : RoutesYR w (r.dgx d0.eff) ds) :
+    YDgs maskFn H Pc L dcid0 sel selR sh ch sa ca e t none (d0 :: ds) ∧
+    RoutesY w (t.dgx d0.eff) ds ∧
+    (((d0 :: ds).map DgY.eff).foldl Trk.dgx t).keyed = true ∧
+    chachaOf (((d0 :: ds).map DgY.eff).foldl Trk.dgx t).core = hpChacha sel ∧
+    (((d0 :: ds).map DgY.eff).foldl Trk.dgx t).tc = (((d0 :: ds).map DgY.eff).foldl RTrk.dgx r).tc ∧
+    (((d0 :: ds).map DgY.eff).foldl Trk.dgx t).ts = (((d0 :: ds).map DgY.eff).foldl RTrk.dgx r).ts ∧
+    (((d0 :: ds).map DgY.eff).foldl Trk.dgx t).cc = (((d0 :: ds).map DgY.eff).foldl RTrk.dgx r).cc ∧
+    (((d0 :: ds).map DgY.eff).foldl Trk.dgx t).sc = (((d0 :: ds).map DgY.eff).foldl RTrk.dgx r).sc := by
+  have hins0 : h.ins = [] ++ allInsM ((d0 :: ds).map (·.x.base)) ++ [] := by rw [hins]; simp
+  obtain ⟨y1, y2⟩ := ydgs_of_rfc h hok L dcid0 sel selR sh ch sa ca e hsel (d0 :: ds) [] [] hins0 t r hs none rfl hd
+  rw [List.nil_append, hins] at y2
+  have hany : h.ins.any (·.isServer) = true := by rw [ins_split]; simp [shIn, inOf]
+  have hins1 : h.ins = [] ++ insOf d0.x.base.longs ++ (allInsM (ds.map (·.x.base)) ++ []) := by
+    rw [← hins]; simp [allInsM, List.flatMap_cons]
+  obtain ⟨_, z2, z3⟩ := ydg_of_rfc h hok L dcid0 sel selR sh ch sa ca e hsel d0 [] _ hins1 t r hs none rfl hd.1
+  have hr := routes_of_rfc h hok L dcid0 sel selR sh ch sa ca e hsel w ds ([] ++ insOf d0.x.base.longs) []
+    (by rw [hins1]; simp) (t.dgx d0.eff) (r.dgx d0.eff) z2 _ z3 hd.2 hro
+  refine ⟨y1, hr, by rw [y2.keyed, y2.sent]; exact hany, ?_, y2.tc, y2.ts, y2.cc, y2.sc⟩
+  rw [y2.core]
+  exact chacha_sync h hok sel hsel _ (List.prefix_refl _) hany
+
+end RfcLayer
+
+/-! ### the demanded block, in the senders' terms -/
+section Block
+open TLX.Export TLX.Quic.Session TLX.Cipher TLX.Props.C02Session
+
+/-- one exported UDP frame: between the client's endpoint and the server's address with the exported port (`-m` map, else
+    8080, or the original one), MAC addresses and IP version of the connection's first datagram, addressed by direction -/
+def addrR (args : Args) (pm : List (Int × Int)) (fl : Flow) (frF : Spec.FrameBuild.Frame) (srv : Bool) (ts : Nat)
+    (payload : Bytes) : Pipeline.OutPkt :=
+  let s : MainLoop.Endpoint := ⟨(serverEp fl).ip,
+    TcpOut.exportedServerPort (Options.keepOriginalPorts args.mArg) (Pipeline.portmapFn pm) (serverEp fl).port⟩
+  if srv then ⟨ts, frF.dstMac, frF.srcMac, s, clientEp fl, fl.v6, 0, 0, 0, payload, true⟩
+  else ⟨ts, frF.srcMac, frF.dstMac, clientEp fl, s, fl.v6, 0, 0, 0, payload, true⟩
+
+/-- **what C02 demands**: one UDP frame per datagram of the interleaved part that carried STREAM data in an exported 0-RTT
+    packet or in its 1-RTT packet (payload: the 0-RTT packets' data, then the 1-RTT packet's), then one per datagram of the
+    1-RTT-only part that carried STREAM data — in capture order, at the datagram's capture microsecond -/
+def blockAll (args : Args) (pm : List (Int × Int)) (fl : Flow) (frF : Spec.FrameBuild.Frame) (ds : List DgX) (bs : List Dg1) :
+    List Pipeline.OutPkt :=
+  ((ds.filter fun d => !d.data.isEmpty).map fun d => addrR args pm fl frF d.base.srv d.base.ts d.data.flatten) ++
+    (bs.filter fun d => hasStream d.x.frames).map fun d => addrR args pm fl frF d.x.srv d.x.ts (streamData d.x.frames).flatten
+
+theorem expectedOutX_block (args : Args) (pm : List (Int × Int)) (ports : List Int) (fl : Flow)
+    (frF : Spec.FrameBuild.Frame) (c : QConn) (hc : ConnIs c (optsOf args ports pm) fl frF) (ds : List DgX) (bs : List Dg1) :
+    expectedOutX c ds bs = blockAll args pm fl frF ds bs := by
+  obtain ⟨c1, c2, c3, c4, m1, m2⟩ := hc
+  have hadd : ∀ srv ts pl, addressed c ⟨srv, ts, pl⟩ = addrR args pm fl frF srv ts pl := by
+    intro srv ts pl
+    simp only [addressed, addrR, c1, c2, c3, c4, m1, m2]
+    rfl
+  unfold expectedOutX blockAll expectedOut
+  congr 1
+  · apply List.map_congr_left; intro d _; exact hadd _ _ _
+  · apply List.map_congr_left; intro d _; exact hadd _ _ _
+
+end Block
+
+/-! ### no write-abort when every exported frame is in range -/
+section NoAbortAll
+open TLX.Export TLX.Props.C01File2
+
+theorem no_abort_of_all_fit (mask : Quic.Dissect.MaskFn) (H : Crypto.Prims) (P : Cipher.Prims) (args : Args)
+    (legacy : Bool) (keyFile : Option Keylog.Str) (file : Bytes) (cap : List CapEv)
+    (hread : Container.read legacy file = .ok (cap.map CapEv.item)) (hok : CapOk cap)
+    (hnoc : args.checksumTest = false)
+    (hall : ∀ out, framesFrom mask H P freshState args (fileKeysOf keyFile) (itemsFrom 0 cap) (capInfo cap) = .ok out →
+      ∀ q ∈ out, WritesOk q) :
+    ¬ ∃ e, exportFile mask H P args legacy keyFile file = .abort (.write e) := by
+  rintro ⟨e, he⟩
+  obtain ⟨_, xs, is, out, hi, hf, hw⟩ := (Props.Export.export_abort_write_iff mask H P args legacy keyFile file e).mp he
+  have hing := ingest_of_capture Keylog.srcHexClass legacy file cap hread hok
+  rw [← hnoc, hi] at hing
+  cases hing
+  have hf' : framesFrom mask H P freshState args (fileKeysOf keyFile) (itemsFrom 0 cap) (capInfo cap) = .ok out := hf
+  have hwf := Lemmas.Export.framesFrom_wf mask H P freshState args _ _ _ _
+    (Lemmas.Export.itemsWith_good _ _ _ _ _ _ hi) hf'
+  have hex : ∃ f, fileOfFrames (out.map Frame.ofOutPkt) = .ok f := by
+    apply (C06Bytes.fileOf_ok_iff _ ?_).mpr
+    · intro fr hfr'
+      simp only [List.mem_map] at hfr'
+      obtain ⟨x, hx, rfl⟩ := hfr'
+      exact hall out hf' x hx
+    · intro fr hfr'
+      simp only [List.mem_map] at hfr'
+      obtain ⟨x, hx, rfl⟩ := hfr'
+      exact hwf x hx
+  obtain ⟨f, hfok⟩ := hex
+  have : fileOf out = .ok f := hfok
+  rw [this] at hw
+  cases hw
+
+end NoAbortAll
+
 end TLX.Props.C02All
